@@ -4,6 +4,11 @@ import json, os
 V = os.path.dirname(os.path.dirname(os.path.abspath(__file__)))
 
 CLAIMED = {
+ "C02": dict(
+   category="proof", design_ref="DESIGN.md §5 C02, §9.1",
+   text="13 Lean theorems about the executable models of packet.Tracer (seven maps, resolve with its slot search and reader loop, transcribed; fixed and pinned variants) and of the node loops as small-step programs in which Read, Link, Write and a backward answer are separate steps: C02.node_contract_partial (one-to-one node: for EVERY schedule of deliver / read / action returns / Link / Write accepted-or-not / downstream answer, with any number of requests in flight, the node's replies equal the specification's and nothing panics), C02.node_answers_in_read_order / spec_answers_in_read_order (k-th reply answers the k-th read, exactly once), C02.spec_reply_content, C02.spec_echo_when_not_accepted, C02.tracer_quiescent_empty (nothing in flight ⇒ all seven maps empty), C02.compose (assume/guarantee composition over a finite acyclic graph), C02.pinned_tree_violates (the reproduced defect, by rfl). One-to-many and many-to-one nodes are covered by correspondence and oracle only (C02.node_contract_full is stated, not proved). Tied to the code by differential execution of random acyclic workflows of 1–6 real nodes (chains, fan-out, diamonds, fan-in, unconnected and error outputs; 1–4 pipelined requests; actions blocked on harness channels; every line of the schedule compared with the whole-graph model) plus an independent Go reference of the request tree.",
+   note="Partial: the proved contract is for the one-to-one node with fresh action outputs; compose is abstract (not instantiated with the concrete node theorem). The C01 writer contract is a hypothesis built into the answer step. Tracer methods are atomic steps (Tracer.mu); real runs interleave only at action and sink boundaries, finer interleavings are covered by the theorem alone. Fixed defect: resolve answered a read whose derived packets were not registered yet. Trusted: Lean kernel, harness (incl. its Go reference simulator), VerifTracer/VerifLen hooks.",
+   technique="Lean 4 proof (simulation between the tracer/node machine and a per-request specification, all schedules) + model/implementation differential correspondence"),
  "C09": dict(
    category="proof", design_ref="DESIGN.md §5 C09, §9.1",
    text="13 Lean theorems about the executable model of runtime.Runtime (Load transcribed step by step: find specs in namespace ∧ filter → fetch referenced values → bind → compare with the table → insert only when different → free what matches the filter but not the result; Reconcile as consumption of spec/value events): C09.load_exact / load_exact_filtered / load_exact_reachable (after Load the table equals the target computed from the stores, for every reachable state), C09.load_idempotent / load_silent_when_exact / reload_after_full_load_silent (a reload in an unchanged world emits no notification), C09.converges_invariant / converges / converges_eventually (for every history of store mutations, loads and event consumptions: whenever both event queues are empty the table equals the target; draining terminates), C09.converges_concurrent (Load split into read and commit with mutations in between, at most one Load in flight – what the loadMu fix guarantees). Tied to the code by differential execution of a real Runtime over two in-memory stores (sequential histories with Load at random points compared after every Load; Watch+Reconcile compared at quiescence; overlap scenarios driven through a verif yield hook).",
